@@ -48,41 +48,41 @@ theorem hdr_fields (m : Bytes) (hm : m.length = 4) (a b v s d e f g : Nat) (rest
 /-! ### where the writer places the file bodies -/
 
 theorem place_length (c : Conv) (ssz : Nat) (files : List FileSpec) (pos : Nat) :
-    (writeArchive.place c ssz files pos).length = files.length := by
+    (writeArchiveCore.place c ssz files pos).length = files.length := by
   induction files generalizing pos with
-  | nil => simp [writeArchive.place]
-  | cons f fs ih => simp [writeArchive.place, ih]
+  | nil => simp [writeArchiveCore.place]
+  | cons f fs ih => simp [writeArchiveCore.place, ih]
 
 theorem place_sum (c : Conv) (ssz : Nat) (files : List FileSpec) (pos : Nat) :
-    ((writeArchive.place c ssz files pos).map (·.1.length)).sum =
-      ((writeArchive.place c ssz files pos).flatMap (·.1)).length := by
+    ((writeArchiveCore.place c ssz files pos).map (·.1.length)).sum =
+      ((writeArchiveCore.place c ssz files pos).flatMap (·.1)).length := by
   induction files generalizing pos with
-  | nil => simp [writeArchive.place]
+  | nil => simp [writeArchiveCore.place]
   | cons f fs ih =>
-    simp only [writeArchive.place, List.map_cons, List.sum_cons, List.flatMap_cons, List.length_append, ih]
+    simp only [writeArchiveCore.place, List.map_cons, List.sum_cons, List.flatMap_cons, List.length_append, ih]
 
 /-- the i-th placed entry is the i-th file laid out at its own position, and its body sits in the body area at that
     position -/
 theorem place_get (c : Conv) (ssz : Nat) (files : List FileSpec) (pos i : Nat) (hi : i < files.length) :
     ∃ posi pre post,
-      (writeArchive.place c ssz files pos)[i]? =
+      (writeArchiveCore.place c ssz files pos)[i]? =
         some ((layoutFile c ssz files[i] posi).1, posi, (layoutFile c ssz files[i] posi).1.length,
               files[i].data.length, (layoutFile c ssz files[i] posi).2) ∧
-      (writeArchive.place c ssz files pos).flatMap (·.1) = pre ++ ((layoutFile c ssz files[i] posi).1 ++ post) ∧
+      (writeArchiveCore.place c ssz files pos).flatMap (·.1) = pre ++ ((layoutFile c ssz files[i] posi).1 ++ post) ∧
       pos + pre.length = posi := by
   induction files generalizing pos i with
   | nil => simp at hi
   | cons f fs ih =>
     cases i with
     | zero =>
-      refine ⟨pos, [], (writeArchive.place c ssz fs (pos + (layoutFile c ssz f pos).1.length)).flatMap (·.1), ?_, ?_, by simp⟩
-      · simp [writeArchive.place]
-      · simp [writeArchive.place]
+      refine ⟨pos, [], (writeArchiveCore.place c ssz fs (pos + (layoutFile c ssz f pos).1.length)).flatMap (·.1), ?_, ?_, by simp⟩
+      · simp [writeArchiveCore.place]
+      · simp [writeArchiveCore.place]
     | succ i =>
       obtain ⟨posi, pre, post, h1, h2, h3⟩ := ih (pos + (layoutFile c ssz f pos).1.length) i (by simpa using hi)
       refine ⟨posi, (layoutFile c ssz f pos).1 ++ pre, post, ?_, ?_, ?_⟩
-      · simpa [writeArchive.place] using h1
-      · simp only [writeArchive.place, List.flatMap_cons, h2, List.append_assoc]
+      · simpa [writeArchiveCore.place] using h1
+      · simp only [writeArchiveCore.place, List.flatMap_cons, h2, List.append_assoc]
         simp
       · simp only [List.length_append]; omega
 
@@ -266,20 +266,20 @@ theorem layoutFile_flags_lt (c : Conv) (ssz : Nat) (f : FileSpec) (pos : Nat) : 
 
 /-- every block-table row the writer emits: position, stored size, file size, flags of the i-th file -/
 theorem place_rows (c : Conv) (ssz : Nat) (files : List FileSpec) (pos : Nat) :
-    ∀ e ∈ writeArchive.place c ssz files pos,
-      pos ≤ e.2.1 ∧ e.2.1 + e.2.2.1 ≤ pos + ((writeArchive.place c ssz files pos).flatMap (·.1)).length ∧
+    ∀ e ∈ writeArchiveCore.place c ssz files pos,
+      pos ≤ e.2.1 ∧ e.2.1 + e.2.2.1 ≤ pos + ((writeArchiveCore.place c ssz files pos).flatMap (·.1)).length ∧
       (∃ f ∈ files, e.2.2.2.1 = f.data.length) ∧ e.2.2.2.2 < 2 ^ 32 := by
   induction files generalizing pos with
-  | nil => simp [writeArchive.place]
+  | nil => simp [writeArchiveCore.place]
   | cons f fs ih =>
     intro e he
-    simp only [writeArchive.place, List.mem_cons] at he
+    simp only [writeArchiveCore.place, List.mem_cons] at he
     rcases he with rfl | he
     · refine ⟨Nat.le_refl _, ?_, ⟨f, by simp, rfl⟩, layoutFile_flags_lt c ssz f pos⟩
-      simp only [writeArchive.place, List.flatMap_cons, List.length_append]; omega
+      simp only [writeArchiveCore.place, List.flatMap_cons, List.length_append]; omega
     · obtain ⟨h1, h2, ⟨g, hg, h3⟩, h4⟩ := ih (pos + (layoutFile c ssz f pos).1.length) e he
       refine ⟨by omega, ?_, ⟨g, by simp [hg], h3⟩, h4⟩
-      simp only [writeArchive.place, List.flatMap_cons, List.length_append]; omega
+      simp only [writeArchiveCore.place, List.flatMap_cons, List.length_append]; omega
 
 /-- what the writer's output looks like to the reader: a header that parses to the right table positions, the file
     bodies, and the two encoded tables; the hash table satisfies the insertion invariant -/
@@ -298,18 +298,18 @@ theorem archive_decompose (c : Conv) (version shift hashSize : Nat) (files : Lis
           hdrB.length + BODY.length + (encodeTable ht tableKeyHash).length, ht.length, bt.length⟩ : Header) ∧
       (∀ r ∈ ht, r.length = 4) ∧ (∀ r ∈ ht, ∀ x ∈ r, x < 2 ^ 32) ∧
       (∀ r ∈ bt, r.length = 4) ∧ (∀ r ∈ bt, ∀ x ∈ r, x < 2 ^ 32) ∧
-      BODY = (writeArchive.place c (512 * 2 ^ shift) files hdr).flatMap (·.1) ∧
-      bt = (writeArchive.place c (512 * 2 ^ shift) files hdr).map (fun x => [x.2.1, x.2.2.1, x.2.2.2.1, x.2.2.2.2]) := by
+      BODY = (writeArchiveCore.place c (512 * 2 ^ shift) files hdr).flatMap (·.1) ∧
+      bt = (writeArchiveCore.place c (512 * 2 ^ shift) files hdr).map (fun x => [x.2.1, x.2.2.1, x.2.2.2.1, x.2.2.2.2]) := by
   have hinv := buildHash_inv files hashSize (fun t x => insertHash t x.1.name x.2) (fun _ _ _ => rfl) hd hle (by omega)
   revert hsize
-  unfold writeArchive
+  unfold writeArchive writeArchiveCore
   simp only [List.append_assoc]
   generalize hhdr : (if version = 0 then 32 else 44) = hdr
   generalize hssz' : 512 * 2 ^ shift = ssz at *
   generalize hht : List.foldl (fun t (x : FileSpec × Nat) => insertHash t x.1.name x.2) (List.replicate hashSize emptyHash) files.zipIdx = ht at *
   rw [place_sum]
   have hrows := place_rows c ssz files hdr
-  generalize hpl : writeArchive.place c ssz files hdr = placed at *
+  generalize hpl : writeArchiveCore.place c ssz files hdr = placed at *
   generalize hbody : placed.flatMap (fun x => x.1) = BODY at *
   generalize hbt : placed.map (fun x => [x.2.1, x.2.2.1, x.2.2.2.1, x.2.2.2.2]) = bt
   generalize hext : (if version = 0 then ([] : Bytes) else natLE 8 0 ++ (natLE 2 0 ++ natLE 2 0)) = ext
